@@ -500,4 +500,223 @@ def decodeFrom (p : PState) (text : Bytes) : Option (Option JV) := do
 /-- `Json::decode` / `Xdl::decode` on a fresh parser -/
 def decode (text : Bytes) : Option (Option JV) := decodeFrom init text
 
+
+/-! # Encoder: `XdlEncoder` (src/Xdl.cpp) — C05
+
+`Json::encode(v, mode)` = `Xdl::encode(v, mode | JSON)`; `Json::write`/`Xdl::write` run the same encoder
+with a file sink that is flushed whenever `_out` exceeds 16000 bytes after a node has been encoded.
+libc's `snprintf("%.Pg")` is a parameter `g` (the driver passes `AslModel.Dtoa.fmtG`). -/
+
+/-- a `Var` tree as the encoder sees it (`flt` carries the double value of the float; objects are given
+    in enumeration order, i.e. sorted by key as `Dic` keeps them) -/
+inductive EV where
+  | none
+  | null
+  | bool (b : Bool)
+  | int (i : Int)
+  | num (bits : UInt64)
+  | flt (bits : UInt64)
+  | str (s : Bytes)
+  | arr (l : List EV)
+  | obj (ms : List (Bytes × EV))
+deriving Repr, Inhabited
+
+/-- `Json::Mode` bits: PRETTY = 1, SIMPLE = 2, JSON = 8, SHORTF = 32 -/
+structure Mode where
+  pretty : Bool
+  simple : Bool
+  json : Bool
+  shortf : Bool
+deriving Repr, DecidableEq
+
+def Mode.ofNat (n : Nat) : Mode :=
+  { pretty := n % 2 = 1, simple := n / 2 % 2 = 1, json := n / 8 % 2 = 1, shortf := n / 32 % 2 = 1 }
+
+def precF (m : Mode) : Nat := if m.simple then 7 else 9
+def precD (m : Mode) : Nat := if m.shortf then precF m else if m.simple then 15 else 17
+
+def dFinite (bits : UInt64) : Bool := bits.toNat / 2 ^ 52 % 2048 ≠ 2047
+def dNaN (bits : UInt64) : Bool := bits.toNat / 2 ^ 52 % 2048 = 2047 ∧ bits.toNat % 2 ^ 52 ≠ 0
+def dNeg (bits : UInt64) : Bool := bits.toNat / 2 ^ 63 = 1
+
+/-- "Fix decimal comma of some locales": the first `,` becomes `.` -/
+def fixComma : Bytes → Bytes
+  | [] => []
+  | c :: t => if c = 44 then 46 :: t else c :: fixComma t
+
+/-- `new_number(double)` / `new_number(float)` with precision `P` -/
+def encReal (g : Nat → UInt64 → Bytes) (P : Nat) (bits : UInt64) : Bytes :=
+  if !dFinite bits then
+    if dNaN bits then [110, 117, 108, 108]                       -- null
+    else if dNeg bits then [45, 49, 101, 52, 48, 48] else [49, 101, 52, 48, 48]   -- -1e400 / 1e400
+  else fixComma (g P bits)
+
+/-- the digits of a positive number, least significant first (the `ss[]` loop of `myitoa`) -/
+def decRev : Nat → Nat → Bytes
+  | 0, _ => []
+  | f + 1, n => if n = 0 then [] else UInt8.ofNat (48 + n % 10) :: decRev f (n / 10)
+
+/-- `myitoa` on a 32-bit int -/
+def itoa (x : Int) : Bytes :=
+  if x = 0 then [48]
+  else if x < 0 then
+    if x = -2147483648 then [45, 50, 49, 52, 55, 52, 56, 51, 54, 52, 56]
+    else 45 :: (decRev 16 (-x).toNat).reverse
+  else (decRev 16 x.toNat).reverse
+
+def hexLow (n : Nat) : UInt8 := if n < 10 then UInt8.ofNat (48 + n) else UInt8.ofNat (87 + n)
+
+/-- `new_string` body: escapes -/
+def escByte (c : UInt8) : Bytes :=
+  if c = 92 then [92, 92] else if c = 34 then [92, 34] else if c = 10 then [92, 110]
+  else if c = 13 then [92, 114] else if c = 9 then [92, 116] else if c = 12 then [92, 102]
+  else if c = 8 then [92, 98]
+  else if c < 32 then [92, 117, 48, 48, hexLow (c.toNat / 16), hexLow (c.toNat % 16)]
+  else [c]
+
+def encString (s : Bytes) : Bytes := 34 :: (s.flatMap escByte) ++ [34]
+
+def indentOf (lvl : Nat) : Bytes := List.replicate lvl 9
+def sep1 (m : Mode) : Bytes := if m.pretty then [44, 32] else [44]
+def sep2 (m : Mode) : Bytes := if !m.json && m.pretty then [] else [44]
+
+def isArrV : EV → Bool | .arr _ => true | _ => false
+def isObjV : EV → Bool | .obj _ => true | _ => false
+def isStrV : EV → Bool | .str _ => true | _ => false
+def okV : EV → Bool | .none => false | _ => true
+
+/-- `Var::length()` -/
+def vlen : EV → Nat
+  | .arr l => l.length
+  | .obj ms => ms.length
+  | .str s => s.length
+  | _ => 0
+
+/-- the pretty-printer's string heuristic: does the running sum of `length()` exceed 100 ? -/
+def sumExceeds : List EV → Nat → Bool
+  | [], _ => false
+  | x :: t, acc => if acc + vlen x > 100 then true else sumExceeds t (acc + vlen x)
+
+/-- `multi` and `big` of the ARRAY case -/
+def arrayLayout (m : Mode) (l : List EV) : Bool × Bool :=
+  let n := l.length
+  let v0 : EV := l.headD (.arr l)
+  let multi0 := m.pretty && (decide (n > 10) || (decide (n > 0) && (isArrV v0 || isObjV v0)))
+  let multi := multi0 || (m.pretty && !multi0 && isStrV v0 && sumExceeds l 0)
+  let big := decide (n > 0) && (isArrV v0 || isObjV v0 || isStrV v0)
+  (multi, big)
+
+/-- the XDL class name: the `$type` member if it is a string -/
+def classOf : List (Bytes × EV) → Option Bytes
+  | [] => none
+  | (k, v) :: t => if k = classKey then (match v with | .str s => some s | _ => some [63]) else classOf t
+
+mutual
+/-- `_encode(v)` at indentation `_level = lvl` as a pure function (string sink) -/
+def enc (g : Nat → UInt64 → Bytes) (m : Mode) : Nat → EV → Bytes
+  | _, .flt b => encReal g (precF m) b
+  | _, .num b => encReal g (precD m) b
+  | _, .int i => itoa i
+  | _, .str s => encString s
+  | _, .bool b => if m.json then (if b then [116, 114, 117, 101] else [102, 97, 108, 115, 101]) else (if b then [89] else [78])
+  | _, .null => [110, 117, 108, 108]
+  | _, .none => [110, 117, 108, 108]
+  | lvl, .arr l =>
+    let (multi, big) := arrayLayout m l
+    let lvl' := if multi then lvl + 1 else lvl
+    [91] ++ (if multi then 10 :: indentOf lvl' else []) ++ encItems g m lvl' multi big 0 l
+      ++ (if multi then 10 :: indentOf lvl else []) ++ [93]
+  | lvl, .obj ms =>
+    let cls : Bytes := if m.json then [] else (classOf ms).getD []
+    let lvl' := if m.pretty then lvl + 1 else lvl
+    cls ++ [123] ++ encMembers g m lvl' false ms ++ (if m.pretty then 10 :: indentOf lvl else []) ++ [125]
+/-- the items of an array from index `i` on -/
+def encItems (g : Nat → UInt64 → Bytes) (m : Mode) (lvl : Nat) (multi big : Bool) : Nat → List EV → Bytes
+  | _, [] => []
+  | i, x :: t =>
+    (if i > 0 then (if multi && (big || i % 16 = 0) then sep2 m ++ 10 :: indentOf lvl else sep1 m) else [])
+      ++ enc g m lvl x ++ encItems g m lvl multi big (i + 1) t
+/-- the members of an object; `started` = a member has already been written (`k > 0`) -/
+def encMembers (g : Nat → UInt64 → Bytes) (m : Mode) (lvl : Nat) : Bool → List (Bytes × EV) → Bytes
+  | _, [] => []
+  | started, (k, v) :: t =>
+    if okV v && (m.json || k ≠ classKey) then
+      (if started then sep2 m else []) ++ (if m.pretty then 10 :: indentOf lvl else [])
+        ++ (if m.json then encString k ++ (if m.pretty then [58, 32] else [58]) else k ++ [61])
+        ++ enc g m lvl v ++ encMembers g m lvl true t
+    else encMembers g m lvl started t
+end
+
+/-- `XdlEncoder::encode(v, mode)` with the string sink: the returned text -/
+def encode (g : Nat → UInt64 → Bytes) (m : Mode) (v : EV) : Bytes :=
+  enc g m 0 v ++ (if m.pretty then [10] else [])
+
+/-! ## the same encoder writing through a sink (`Xdl::write`) -/
+
+/-- `_out` (reversed, with its length) and what has been handed to the sink so far (newest first) -/
+structure W where
+  chunks : List Bytes
+  rout : Bytes
+  len : Nat
+deriving Repr, Inhabited
+
+def W.empty : W := { chunks := [], rout := [], len := 0 }
+def W.emit (w : W) (s : Bytes) : W := { w with rout := s.reverse ++ w.rout, len := w.len + s.length }
+/-- `if (_out.length() > 16000) _sink->write(_out);` -/
+def W.flushIfBig (w : W) : W := if w.len > 16000 then { chunks := w.rout.reverse :: w.chunks, rout := [], len := 0 } else w
+/-- everything written, in order -/
+def W.total (w : W) : Bytes := w.chunks.reverse.flatten ++ w.rout.reverse
+
+mutual
+def encW (g : Nat → UInt64 → Bytes) (m : Mode) : Nat → EV → W → W
+  | lvl, .arr l, w =>
+    let (multi, big) := arrayLayout m l
+    let lvl' := if multi then lvl + 1 else lvl
+    let w := w.emit ([91] ++ (if multi then 10 :: indentOf lvl' else []))
+    let w := encItemsW g m lvl' multi big 0 l w
+    (w.emit ((if multi then 10 :: indentOf lvl else []) ++ [93])).flushIfBig
+  | lvl, .obj ms, w =>
+    let cls : Bytes := if m.json then [] else (classOf ms).getD []
+    let lvl' := if m.pretty then lvl + 1 else lvl
+    let w := w.emit (cls ++ [123])
+    let w := encMembersW g m lvl' false ms w
+    (w.emit ((if m.pretty then 10 :: indentOf lvl else []) ++ [125])).flushIfBig
+  | lvl, v, w => (w.emit (enc g m lvl v)).flushIfBig
+def encItemsW (g : Nat → UInt64 → Bytes) (m : Mode) (lvl : Nat) (multi big : Bool) : Nat → List EV → W → W
+  | _, [], w => w
+  | i, x :: t, w =>
+    let w := w.emit (if i > 0 then (if multi && (big || i % 16 = 0) then sep2 m ++ 10 :: indentOf lvl else sep1 m) else [])
+    encItemsW g m lvl multi big (i + 1) t (encW g m lvl x w)
+def encMembersW (g : Nat → UInt64 → Bytes) (m : Mode) (lvl : Nat) : Bool → List (Bytes × EV) → W → W
+  | _, [], w => w
+  | started, (k, v) :: t, w =>
+    if okV v && (m.json || k ≠ classKey) then
+      let w := w.emit ((if started then sep2 m else []) ++ (if m.pretty then 10 :: indentOf lvl else [])
+        ++ (if m.json then encString k ++ (if m.pretty then [58, 32] else [58]) else k ++ [61]))
+      encMembersW g m lvl true t (encW g m lvl v w)
+    else encMembersW g m lvl started t w
+end
+
+/-- `Xdl::write`: encode through the sink, final newline in pretty mode, final `_sink->write(_out)` -/
+def writeChunks (g : Nat → UInt64 → Bytes) (m : Mode) (v : EV) : List Bytes :=
+  let w := encW g m 0 v W.empty
+  let w := if m.pretty then w.emit [10] else w
+  (w.rout.reverse :: w.chunks).reverse
+
+/-- `Xdl::read` on a file with this content: BOM probe, chunks of `min(16382, size)` bytes, flush -/
+def readFile (content : Bytes) : Option (Option JV) :=
+  let size := min content.length 100000
+  if size = 0 then some none else
+  let body := match content with
+    | 0xEF :: 0xBB :: 0xBF :: t => t
+    | _ => content
+  let n := min 16382 size
+  let rec split (fuel : Nat) (b : Bytes) : List Bytes :=
+    match fuel with
+    | 0 => [b]
+    | f + 1 => if b.length < n then [b] else b.take n :: split f (b.drop n)
+  match parseChunks init (split content.length body) with
+  | none => none
+  | some p => (parse p [32]).map value
+
 end AslModel.Xdl
